@@ -61,6 +61,9 @@ class ShimSocket:
         self.rtrace = Trace()
         self.strace = Trace()
         self.sent = bytearray()
+        self.kernel_transient = threading.Event()   # set whenever the KERNEL answered a recv with EAGAIN / a timeout
+        self.kernel_timeouts = 0
+        self.gate = None                            # called before every send (writer side)
 
     def recv(self, n, flags=0):
         if self.timeouts[0] and self.rng.chance(*self.timeouts):
@@ -71,14 +74,20 @@ class ShimSocket:
             buf = self.real.recv(k)
         except socket.timeout:
             self.rtrace.add("t")
+            self.kernel_timeouts += 1
+            self.kernel_transient.set()
             raise
         except OSError as ex:
             self.rtrace.add("e%d" % (ex.errno or 0))
+            if ex.errno in (errno.EAGAIN, errno.EWOULDBLOCK):
+                self.kernel_transient.set()
             raise
         self.rtrace.add("c%d" % len(buf) if buf else "z")
         return buf
 
     def send(self, data, flags=0):
+        if self.gate is not None:
+            self.gate()
         k = max(self.min_send, pick(self.rng, len(data)))
         try:
             n = self.real.send(bytes(data[:k]))
@@ -166,8 +175,22 @@ class Result:
     pass
 
 
+def tcp_pair():
+    srv = socket.socket(socket.AF_INET, socket.SOCK_STREAM)
+    try:
+        srv.bind(("127.0.0.1", 0))
+        srv.listen(1)
+        a = socket.create_connection(srv.getsockname(), timeout=5)
+        b, _addr = srv.accept()
+    finally:
+        srv.close()
+    a.settimeout(None)
+    a.setsockopt(socket.IPPROTO_TCP, socket.TCP_NODELAY, 1)
+    return a, b
+
+
 def run_pair(kind, rng, packets, cs, cr, tail=b"", reader_stops_after=None, nonblocking=False, timeouts=(0, 1),
-             bufsize=4096, reset=False, min_send=1, join_ceiling=20.0):
+             bufsize=4096, reset=False, min_send=1, join_ceiling=20.0, gated=False, reader_timeout=None):
     """one transfer over a real socketpair ('sock') or two real pipes ('pipe').
 
     The writer thread sends `packets`, then writes `tail` raw (a partial frame) and closes its end.  The reader
@@ -178,8 +201,16 @@ def run_pair(kind, rng, packets, cs, cr, tail=b"", reader_stops_after=None, nonb
     res.kind = kind
     shim_os = None
     real_os = S.os
-    if kind == "sock":
-        a, b = socket.socketpair()
+    res.transport = kind
+    if kind in ("sock", "tcp"):
+        if kind == "tcp":
+            try:
+                a, b = tcp_pair()
+            except OSError:
+                res.transport = "sock(tcp-unavailable)"
+                a, b = socket.socketpair()
+        else:
+            a, b = socket.socketpair()
         for s_ in (a, b):
             s_.setsockopt(socket.SOL_SOCKET, socket.SO_SNDBUF, bufsize)
             s_.setsockopt(socket.SOL_SOCKET, socket.SO_RCVBUF, bufsize)
@@ -187,8 +218,17 @@ def run_pair(kind, rng, packets, cs, cr, tail=b"", reader_stops_after=None, nonb
             b.send(b"!")        # never read by the writer's end: its close() then resets the connection
         if nonblocking:
             b.setblocking(False)
+        elif reader_timeout:
+            b.settimeout(reader_timeout)
         wsh = ShimSocket(a, rng.fork("w"), min_send=min_send)
         rsh = ShimSocket(b, rng.fork("r"), timeouts=timeouts)
+        if gated:
+            # the writer sends nothing (more) until the KERNEL has told the reader "nothing there yet" once more:
+            # every send is preceded by at least one real EAGAIN / real socket.timeout at the reader
+            def gate():
+                rsh.kernel_transient.clear()
+                rsh.kernel_transient.wait(3.0)
+            wsh.gate = gate
         wstream, rstream = S.SocketStream(wsh), S.SocketStream(rsh)
         raw_write = lambda data: a.sendall(data)  # noqa: E731
     else:
@@ -255,12 +295,14 @@ def run_pair(kind, rng, packets, cs, cr, tail=b"", reader_stops_after=None, nonb
             S.os = real_os
     res.got, res.rend, res.rclosed, res.polled = got, rend, rstream.closed, polled
     res.wn, res.wend, res.wclosed, res.werror = w["n"], w["end"], w["closed"], w["error"]
-    if kind == "sock":
+    if kind in ("sock", "tcp"):
         res.rtrace, res.strace, res.sent = rsh.rtrace.items(), wsh.strace.items(), bytes(wsh.sent)
         res.eagain = rsh.rtrace.count("e%d" % errno.EAGAIN)
+        res.kernel_timeouts = rsh.kernel_timeouts
     else:
         res.rtrace, res.strace, res.sent = shim_os.rtrace[rfd].items(), shim_os.strace[wfd].items(), bytes(shim_os.sent[wfd])
         res.eagain = 0
+        res.kernel_timeouts = 0
     for st in (wstream, rstream):
         try:
             st.close()
@@ -305,30 +347,55 @@ def probe_dead_peer_poll():
     return out
 
 
+class _WriteRestOnEagain:
+    """`os` for rpyc.core.stream during the probe: the moment os.read on `rfd` reports would-block for the first
+    time, the rest of the frame is written to the pipe (before the exception is passed on) - so 'the remaining bytes
+    were on their way' holds by construction, without any timing"""
+
+    def __init__(self, real_os, rfd, wfd, rest):
+        self._real, self._rfd, self._wfd, self._rest = real_os, rfd, wfd, rest
+        self.wouldblock_seen = 0
+
+    def read(self, fd, n):
+        try:
+            return self._real.read(fd, n)
+        except BlockingIOError:
+            if fd == self._rfd:
+                self.wouldblock_seen += 1
+                if self._rest:
+                    rest, self._rest = self._rest, b""
+                    self._real.write(self._wfd, rest)
+            raise
+
+    def __getattr__(self, name):
+        return getattr(self._real, name)
+
+
 def probe_pipe_wouldblock():
     """a real pipe whose read end has O_NONBLOCK set (by the application or a process sharing the open file
-    description): the frame arrives in two pieces, the reader asks in between -> os.read raises EAGAIN.
-    Returns (packet_lost, text)."""
+    description): the frame arrives in two pieces, the reader asks in between -> os.read raises EAGAIN; the rest of
+    the frame is written at that very moment.  Returns (packet_lost, text)."""
     from rpyc.core import channel, stream as S
     s1, s2 = S.PipeStream.create_pair()
     fd = s1.incoming.fileno()
     fcntl.fcntl(fd, fcntl.F_SETFL, fcntl.fcntl(fd, fcntl.F_GETFL) | os.O_NONBLOCK)
     frame = channel.Channel.FRAME_HEADER.pack(5, 0) + b"hello" + channel.Channel.FLUSHER
     wfd = s2.outgoing.fileno()
-    os.write(wfd, frame[:7])                             # header + two bytes; the rest is still on its way
-    timer = threading.Timer(0.15, lambda: os.write(wfd, frame[7:]))
-    timer.daemon = True
-    timer.start()
+    os.write(wfd, frame[:7])                             # header + two bytes; the rest follows at the first EAGAIN
+    real_os = S.os
+    shim = _WriteRestOnEagain(real_os, fd, wfd, frame[7:])
+    S.os = shim
     ch = channel.Channel(s1, compress=False)
     try:
         got = ch.recv()
-        text = "recv returned %r" % (got,)
+        text = "recv returned %r after %d would-block(s)" % (got, shim.wouldblock_seen)
         lost = got != b"hello"
     except Exception as ex:  # noqa
-        text = "recv raised %s(%s); stream.closed=%s (the writer was about to send the remaining %d bytes)" % (
+        text = "recv raised %s(%s); stream.closed=%s (the remaining %d bytes were written the moment os.read reported would-block)" % (
             type(ex).__name__, ex, s1.closed, len(frame) - 7)
         lost = True
-    timer.join(2.0)
+    finally:
+        S.os = real_os
     for s_ in (s1, s2):
         try:
             s_.close()
